@@ -4,8 +4,10 @@
   `jobsMu`:
 
     plugin/input/file/provider.go   addJob + initJobOffset (continue / reset), commit, truncateJob,
-                                    start (load offsets); not modelled: maintenance deleting a job
-                                    (file removed, or a rename racing with its notification)
+                                    start (load offsets), maintenanceJob (release of an idle job
+                                    whose name no longer leads to its inode: only when nothing is
+                                    unread on the held descriptor — otherwise the job is resumed —;
+                                    not modelled: the release while events of the source are in flight)
     plugin/input/file/worker.go     work (one turn = `Worker.turn`, the C06 model), processEOF
     plugin/input/file/file.go       PassEvent
     plugin/input/file/offset.go     save (per job: the snapshot is taken under that job's lock)
@@ -177,6 +179,7 @@ inductive Op
   | truncate (ino : Nat)
   | discover (ino : Nat)                        -- watcher → addJob
   | scanDone                                    -- isStarted.Store(true)
+  | forget (ino : Nat)                          -- maintenanceJob → deleteJobAndUnlock
   | readTurn (ino : Nat) (reads : List Bytes)
   | deliver (e : Ev)                            -- pipeline hands the event to the output
   | ack (e : Ev)                                -- the output has written it to its sink
@@ -218,6 +221,17 @@ def step? (cfg : Cfg) (s : State) : Op → Option State
       | _, _ => none
     else none
   | .scanDone => if running s && s.scanning then some { s with scanning := false } else none
+  | .forget i =>
+    -- maintenance releases the job (its name leads to no file or to another inode) only if
+    -- `stat.Size() == offset` on the descriptor it holds; otherwise it resumes the job
+    if running s && !s.scanning then
+      match s.files i, s.jobs i with
+      | some f, some j =>
+        if j.w.curOffset = f.content.length ∧ ∀ e ∈ s.inflight, e.ino ≠ i then
+          some { s with jobs := upd s.jobs i none }
+        else none
+      | _, _ => none
+    else none
   | .readTurn i reads =>
     if running s then
       match s.files i, s.jobs i with
